@@ -208,6 +208,7 @@ func ZZC08Rec(n int) {
 	}
 	r := NewRouter[*hnd]("r", call, &hnd{id: id404}, zzB405, zzBOpt, opt)
 	r.Handle("/g/{x}", &hnd{id: 7}, nil, "GET")
+	r.Handle("/ok", &hnd{id: 8}, nil, "GET")
 	path := "/g/" + zzv.Bytes("x", n)
 	zzBoomArmed, zzBoomVal = true, "boom"
 	og := &zzObs{}
@@ -226,4 +227,11 @@ func ZZC08Rec(n int) {
 	zzv.Assert(wg.n > 0, "head-recovery:GET-error-page-missing")
 	zzv.Assert(wh.status == wg.status, "head-recovery:status-differs-from-GET")
 	zzv.Assert(wh.n == 0, "head-recovery:body-bytes-reached-the-client")
+	// an ordinary HEAD afterwards: nothing of the recovered request may show (zzCall writes "body": 4 bytes)
+	o3 := &zzObs{}
+	zzO = o3
+	w3 := newW()
+	r.ServeHTTP(w3, zzReq("HEAD", "/ok"))
+	zzFinish(w3)
+	zzv.Assert(o3.id == 8 && w3.n == 0 && zzHdr(w3.sentHdr, "Content-Length") == "4;", "head-recovery:a-later-HEAD-is-disturbed-by-the-recovered-one")
 }
